@@ -55,14 +55,15 @@ type Op struct {
 }
 
 type thread struct {
-	id      int
-	name    string
-	wake    chan struct{}
-	pending *Op
-	done    bool
-	adopted bool
-	last    string // description of the last op passed (for stuck reports)
-	steps   int
+	id         int
+	name       string
+	wake       chan struct{}
+	pending    *Op
+	done       bool
+	adopted    bool
+	background bool   // service goroutine started during set-up: never required to finish
+	last       string // description of the last op passed (for stuck reports)
+	steps      int
 }
 
 // choice is one recorded choice point.
@@ -74,24 +75,26 @@ type choice struct {
 
 // Sched is the scheduler of one execution.
 type Sched struct {
-	mu       sync.Mutex
-	threads  []*thread
-	byGoid   map[uint64]*thread
-	running  *thread
-	prefix   []int
-	choices  []choice
-	steps    int
-	horizon  int
-	sig      uint64 // running hash of (thread, kind) per step: determinism signature
-	diverged string
-	log      []string // harness observations, in schedule order
-	panics   []string
-	wantSite bool
-	trace    []string
-	stuck    string
-	livelock bool
-	over     bool // scheduler no longer controlling (teardown)
-	setup    bool // scenario body still building: shims pass through
+	mu               sync.Mutex
+	threads          []*thread
+	byGoid           map[uint64]*thread
+	running          *thread
+	prefix           []int
+	choices          []choice
+	steps            int
+	horizon          int
+	sig              uint64 // running hash of (thread, kind) per step: determinism signature
+	diverged         string
+	log              []string // harness observations, in schedule order
+	panics           []string
+	wantSite         bool
+	trace            []string
+	stuck            string
+	livelock         bool
+	over             bool // scheduler no longer controlling (teardown)
+	setup            bool // scenario body still building: shims pass through
+	bgSetup          bool // goroutines the code under test starts during set-up run at once (X.BackgroundSetup)
+	holdSetupThreads bool // x.Go during set-up registers a thread that waits for the scheduler (default for harness threads)
 }
 
 var active atomic.Pointer[Sched]
@@ -227,6 +230,23 @@ func GoNamed(name string, fn func()) {
 	}
 	th := &thread{id: len(s.threads), name: name, wake: make(chan struct{}, 1)}
 	s.threads = append(s.threads, th)
+	if s.setup && s.bgSetup && !s.holdSetupThreads {
+		// Goroutines started by the code under test while the scenario is
+		// still being set up (e.g. a transport's reader and writer loops) run
+		// at once, un-scheduled, but are registered so that they park at their
+		// first point once exploration starts.
+		th.background = true
+		s.mu.Unlock()
+		go func() {
+			g := goid()
+			s.mu.Lock()
+			s.byGoid[g] = th
+			s.mu.Unlock()
+			defer s.exit(th)
+			fn()
+		}()
+		return
+	}
 	start := Op{Kind: OpStart}
 	th.pending = &start
 	s.mu.Unlock()
@@ -346,7 +366,7 @@ func (s *Sched) loop(wait func(), onStuck func() bool) {
 		var en []*thread
 		alive := 0
 		for _, th := range s.threads {
-			if th.done || (th.adopted && th.pending == nil) {
+			if th.done || ((th.adopted || th.background) && th.pending == nil) {
 				// adopted goroutines (timer callbacks etc.) are only tracked
 				// while parked at a point: we cannot see them exit.
 				continue
@@ -419,7 +439,7 @@ func (s *Sched) loop(wait func(), onStuck func() bool) {
 func (s *Sched) describeBlockedLocked() string {
 	var sb strings.Builder
 	for _, th := range s.threads {
-		if th.done || (th.adopted && th.pending == nil) {
+		if th.done || ((th.adopted || th.background) && th.pending == nil) {
 			continue
 		}
 		if th.pending != nil {
